@@ -34,7 +34,7 @@ c("C05", True, PBT + "arbitrary (valid and invalid) polygon generators, both kee
   "30 000 (quick) / 4.8 M (thorough) arbitrary polygons (repetitive scribbles, words over pixel centres, tiny rings, empty rings, polygons without any ring) on grids incl. WebMercator/UPS/ETRS89 (magnitudes above 2^53, y,x axis order); every returned ring is checked for orientation (exact area sign), closure, repetition, size, and the keep/no-keep prefix relation; rare cases with 65-140 rings; sub-check C05Pipe applies the collapse policy to what processing.ProcessFeatures hands to its targets (real snapping function); thorough adds the native fuzz target FuzzC05.",
   KERNEL + "F4 and F9 (fixed) are covered by the generators.", "DESIGN.md §5 C05")
 c("C06", True, PBT + "arbitrary vertex sequences from a repetition grammar + exhaustive enumeration of short centre words + (thorough) native coverage-guided fuzzing; oracle = returns without panic within a confirmed hang limit",
-  "50 000 (quick) / 3.2 M (thorough) arbitrary polygons of up to 200 (thorough 600) vertices per ring, plus ALL words without equal neighbours over 3/4/5 pixel centres up to length 10/8/6 (thorough 13/10/8) driving kmpDeduplicate/splitRing directly; ALL periodic words pre + u^a + v^b + suf over three centres (a, b up to 7, thorough 9; found F15); a fixed list of large structured inputs (zig-zags of 3000 repeats, slivers of 1000 pixels, combs of 1000 teeth, 3000-vertex stars; thorough larger); run times are recorded, not judged. Liveness is decided only through a 10 s limit re-confirmed at 60 s in a fresh process.",
+  "50 000 (quick) / 3.2 M (thorough) arbitrary polygons of up to 200 (thorough 600) vertices per ring, plus ALL words without equal neighbours over 3/4/5 pixel centres up to length 10/8/6 (thorough 13/10/8) driving kmpDeduplicate/splitRing directly; ALL periodic words pre + u^a + v^b + suf over three centres (a, b up to 7, thorough 9; found F15); a fixed list of large structured inputs (zig-zags of 3000 repeats, slivers of 1000 pixels, combs of 1000 teeth, 3000-vertex stars; thorough larger); run times are recorded, not judged. Liveness is decided only through a 10 s limit (thorough: 30 s) re-confirmed at 60 s in a fresh process.",
   "Open known finding F10 (tile matrices deeper than quadtree level 32 panic with 'cannot make Z') is excluded by signature and reported as KNOWN-FINDING.", "DESIGN.md §5 C06")
 c("C07", True, PBT + "metamorphic relations: repetition in process and in a second process, every subset of rings reversed, reverse flag toggled",
   "10 000 (quick) / 1.6 M (thorough) polygons x ~8 snaps each: three in-process repetitions, a digest comparison with a second process for up to 3000 multi-level cases per run (Go randomises map order per process), all 2^r-1 ring reversal subsets, the reverse-flag relation ring by ring, repetitions under GOMAXPROCS 1 and 8, the returned geometry must not change while another polygon is snapped, 1 case in 150 (thorough 400) is a star of 520-2600 vertices (thorough 4000); the same polygon with its rings laid out in one shared coordinate buffer must give the same result and leave the buffer untouched; 1 case in 8 repeats the call 24 times from 6 goroutines at once.",
